@@ -8,7 +8,7 @@ LEAN_TARGETS = ['LLTD.Props.C10']
 VARIANT = 'plain'
 RULE = ('two responder instances A and B (distinct addresses from a near-collision pool) in one process: a mapper orders A to emit 1..20 '
         'Probe/Train frames towards B (some towards other stations), A\'s transmitted frames are delivered unmodified to B (`relay`), '
-        'interleaved with unrelated traffic on B before and after the delivery (including Probes from third stations that use the same Ethernet source addresses), then B is queried until the more flag clears; non-trivial = B reported at least one '
+        'interleaved with unrelated traffic on B before and after the delivery (Hellos, Discovers of either service with the same or a changed generation, QueryLargeTlv, including Probes from third stations that use the same Ethernet source addresses), then B is queried until the more flag clears; non-trivial = B reported at least one '
         'observation whose real source is A; distinct = distinct projected transcript')
 ASSUMPTIONS = ['port contract as for C02', 'no Reset reaches B between the delivery and the Queries; at most 300 distinct observations']
 
@@ -36,7 +36,7 @@ def cases(rng, tier, X):
             ops.append('relay 0 1')
             for _ in range(rng.randint(0, 4)):
                 ops.append('rx 1 ' + rng.choice([F.hello(rng.choice(F.STATIONS), 1, mapper, mapper), F.probe(F.rand_mac(rng), b, F.rand_mac(rng), rng.choice([b, a])),
-                                                 F.discover(mapper, 1, 2), F.qltlv(mapper, b, 4, 0x11, 0)]))
+                                                 F.discover(mapper, rng.choice([1, 1, 2, 0, F.rand_u16(rng)]), rng.randrange(65536), tos=rng.choice([0, 0, 1])), F.qltlv(mapper, b, 4, 0x11, 0)]))
             for _ in range(3):
                 ops.append('rx 1 ' + F.query(mapper, b, rng.randrange(1, 65536)))
         out.append(('p%d' % k, ops))
